@@ -98,7 +98,7 @@ def run_case(ctx, g, rng):
         c = api.Converter([gen.mk_record(api, r) for r in recs])
     else:
         d = rng.choice(gen.DELIMS)
-        recs = gen.records(rng, d, 1, 5, allow_delim=rng.random() < 0.3)
+        recs = gen.records(rng, d, 0, 5, allow_delim=rng.random() < 0.3)
         # make some CURIE prefix + delimiter a registered URI prefix, or a URI prefix a CURIE prefix
         if recs and rng.random() < 0.6:
             taken_u = {u for r in recs for u in spec.all_u(r)}
